@@ -353,11 +353,18 @@ def _trim_sample(sc, limit=6000):
     return out
 
 
+_MINIMISED = [0]
+
+
 def write_replay(prop, tier, seed, sig, v):
     import engines
     sc = engines.generate(prop, seed, tier)
+    budget = {'keychain': 30, 'trustchain': 120, 'sigs': 150}.get(sc.get('engine'), 400)
+    _MINIMISED[0] += 1
+    if _MINIMISED[0] > 6:
+        budget = 0          # many distinct violations in one run: the first ones are minimised, the rest reported as found
     try:
-        small, execs = minimise(sc, sig)
+        small, execs = minimise(sc, sig, budget) if budget else (sc, 0)
     except Exception:
         small, execs = sc, 0
     res = engines.execute(small)
